@@ -1012,6 +1012,10 @@ def helix_awk(*args, **kwargs) -> HelixAwkwardArray:
         y0 = ak.ones_like(dr) * pivot.y
         z0 = ak.ones_like(dr) * pivot.z
         pivot = ak.zip({"x": x0, "y": y0, "z": z0}, with_name="Vector3D")
+    else:
+        # `ak.Array({"x": ..., "y": ..., "z": ...})` of ragged coordinates is a record OF lists;
+        # zip the coordinates so that every track carries its own pivot record
+        pivot = ak.zip({"x": pivot.x, "y": pivot.y, "z": pivot.z}, with_name="Vector3D")
 
     res_dict = {
         "dr": dr,
